@@ -24,10 +24,6 @@ def rect(r1, c1, r2, c2):
     return {"r1": r1, "c1": c1, "r2": r2, "c2": c2}
 
 
-def srange(k, r1, c1, r2, c2):
-    return {"k": k, "r1": r1, "c1": c1, "r2": r2, "c2": c2}
-
-
 def finish_script(replay, rng, reload=None):
     """A TLC behaviour -> a driver script: choose the entry point of insert/remove (workbook level by sheet name or
     sheet level) and whether the initial sheet goes through a save/reload first (then the store is filled by the
@@ -77,6 +73,7 @@ def limit_cases(rng, count):
         corner = rng.random() < 0.25
         if corner:
             cells.append({"r": MAXROW, "c": MAXCOL, "v": "corner", "s": ""})
+        cells = list({(c["r"], c["c"]): c for c in cells}.values())
         init = {"a": "Init", "cells": cells, "rows": [{"r": r0 + 1, "s": rng.choice(["", "N", "F"])}],
                 "cols": [{"c": c0, "s": rng.choice(["N", "F"])}], "reload": False}
         top = {"row": MAXROW if corner else r0 + 2, "col": MAXCOL if corner else c0 + 2}
@@ -113,7 +110,7 @@ def limit_cases(rng, count):
                 room = lim[ax] - top[ax]
                 if room <= 0:
                     continue
-                n = rng.choice([1, 2, room, max(1, room - 1), rng.randint(1, room)])
+                n = min(room, rng.choice([1, 2, room, max(1, room - 1), rng.randint(1, room)]))
                 p = near(ax)
                 steps.append({"a": "Insert", "ax": ax, "p": p, "n": n, "lvl": rng.choice(["wb", "ws"])})
                 top[ax] += n
@@ -138,17 +135,9 @@ def limit_cases(rng, count):
             elif kind < 0.86:
                 steps.append({"a": "Cleanup"})
             elif kind < 0.92:
-                k = rng.choice(["rect", "rows", "cols"])
-                r1, c1 = max(1, min(MAXROW - 1, near("row"))), max(1, min(MAXCOL - 1, near("col")))
-                if k == "rect":
-                    g = srange("rect", r1, c1, min(MAXROW, r1 + rng.randint(0, 2)), min(MAXCOL, c1 + rng.randint(0, 2)))
-                    touch(g["r2"], g["c2"])
-                elif k == "rows":
-                    g = srange("rows", r1, 0, r1 + 1, 0)
-                    touch(r1 + 1, 0)
-                else:
-                    g = srange("cols", 0, c1, 0, c1 + 1)
-                    touch(0, c1 + 1)
+                r1, c1 = near("row"), near("col")
+                g = rect(r1, c1, min(MAXROW, r1 + rng.randint(0, 2)), min(MAXCOL, c1 + rng.randint(0, 2)))
+                touch(g["r2"], g["c2"])
                 steps.append({"a": "SetStyleByRange", "g": g, "s": rng.choice(["", "N", "F"])})
             else:
                 if rng.random() < 0.5:
@@ -191,7 +180,7 @@ def gen_cases(chk):
         for rp in r2.replays:
             cases.append(finish_script(rp, rng))
     n1b = len(cases)
-    nsim = 300 if quick else 10000
+    nsim = 300 if quick else 4000
     rs = vlib.run_tlc("MC_CellStore", "MC_CellStore_sim.cfg", workers=1, coverage=False, simulate=f"num={nsim}",
                       extra=["-depth", "70", "-seed", str(chk.seed)], timeout=5000)
     if rs.rc != 0 or rs.violation or not rs.replays:
@@ -206,7 +195,7 @@ def gen_cases(chk):
         lens.append(len(rp) - 1)
         cases.append(finish_script(rp, rng))
     n2 = len(cases)
-    cases += limit_cases(rng, 150 if quick else 6000)
+    cases += limit_cases(rng, 150 if quick else 3000)
     chk.extra["cases"] = {"tlc_paths_depth1": n1 - 1, "tlc_paths_depth2": n1b - n1, "tlc_simulated_histories": len(seen),
                           "simulated_history_lengths": {"min": min(lens), "max": max(lens),
                                                         "mean": round(sum(lens) / len(lens), 1)},
@@ -242,23 +231,31 @@ def describe(case, ev, detail):
     return f"step {json.dumps({k: v for k, v in ev.items() if k not in ('obs', 'cells', 'rows', 'cols')})}: {detail}"
 
 
-def judge(chk, cases):
-    events = vlib.run_cases("cellstore", cases, timeout=120)
-    nsaved = add_saved(events)
-    out = vlib.validate("Trace_CellStore", "Trace_CellStore.cfg", events, chk.open_ids, "c10", chunk_events=1200,
-                        jobs=min(8, max(1, vlib.NCPU - 2)))
-    first = {}
-    for ci, off, detail in out["mismatch"]:
-        if ci not in first or off < first[ci][0]:
-            first[ci] = (off, detail)
-    for ci, (off, detail) in first.items():
-        # (after an earlier mismatch the specification follows the observed state, so only a *first*
-        # mismatch of kind "gen" blames the generator)
-        if detail.startswith('<<"gen"'):
-            raise vlib.ToolError(f"generator produced an out-of-contract step (case {ci}, step {off}): {detail}")
-    chk.process_validation(out, cases, events, "cellstore", describe)
-    chk.extra["saves_decoded"] = chk.extra.get("saves_decoded", 0) + nsaved
-    return events
+def judge(chk, cases, batch=1200):
+    """Drive and validate in batches (bounded memory); returns the events of the first batch (for samples) and the
+    number of judged events."""
+    first_events, total = None, 0
+    for b0 in range(0, len(cases), batch):
+        part = cases[b0:b0 + batch]
+        events = vlib.run_cases("cellstore", part, timeout=120, jobs=min(6, max(1, vlib.NCPU - 2)))
+        nsaved = add_saved(events)
+        out = vlib.validate("Trace_CellStore", "Trace_CellStore.cfg", events, chk.open_ids, f"c10-{b0}", chunk_events=1200,
+                            jobs=min(8, max(1, vlib.NCPU - 2)))
+        first = {}
+        for ci, off, detail in out["mismatch"]:
+            if ci not in first or off < first[ci][0]:
+                first[ci] = (off, detail)
+        for ci, (off, detail) in first.items():
+            # (after an earlier mismatch the specification follows the observed state, so only a *first*
+            # mismatch of kind "gen" blames the generator)
+            if detail.startswith('<<"gen"'):
+                raise vlib.ToolError(f"generator produced an out-of-contract step (case {b0 + ci}, step {off}): {detail}")
+        chk.process_validation(out, part, events, "cellstore", describe)
+        chk.extra["saves_decoded"] = chk.extra.get("saves_decoded", 0) + nsaved
+        total += sum(len(e) for e in events)
+        if first_events is None:
+            first_events = events
+    return first_events, total
 
 
 def run(chk):
@@ -269,23 +266,22 @@ def run(chk):
         vlib.tlc_mc("MC_CellStore", "MC_CellStore_d3full.cfg", workers=w, timeout=7200, heap="12g", must_take=ACTIONS, check=chk)
         vlib.tlc_mc("MC_CellStore", "MC_CellStore_d4.cfg", workers=w, timeout=7200, heap="12g", must_take=ACTIONS, check=chk)
     cases = gen_cases(chk)
-    events = judge(chk, cases)
-    chk.evaluations = sum(len(e) for e in events)
+    events, chk.evaluations = judge(chk, cases, batch=1200 if chk.tier == "quick" else 600)
     chk.nontrivial = {json.dumps(c["steps"], sort_keys=True) for c in cases if len(c["steps"]) > 1}
     chk.rule = ("a case is an initial sheet (built through the public API, in part saved and reloaded first) plus a "
                 "history of get_cell_mut/set_cell/remove_cell/set_style(_by_range)/insert/remove rows and columns "
                 "(workbook and sheet level)/move/copy range/cleanup/copy_row_styling/copy_col_styling; after every "
                 "operation every query API and an in-memory save are recorded and judged; evaluations = judged "
                 "events; distinct = different step lists, non-trivial = at least one operation")
-    k = next((i for i, c in enumerate(cases) if len(c["steps"]) > 6), 0)
+    k = next((i for i, c in enumerate(cases[:len(events)]) if len(c["steps"]) > 6), 0)
     last = events[k][-1]
     chk.sample({"script": cases[0]["steps"][1:], "saved_refs_after_last_step": events[0][-1].get("obs", {}).get("saved")})
     chk.sample({"script": cases[k]["steps"][1:8], "sorted_listing_after_last_step": last.get("obs", {}).get("sorted"),
                 "dimension": last.get("obs", {}).get("dim")})
     chk.assumptions += [
         "in-range arguments only (nothing pushed beyond XFD1048576; move/copy destination inside the grid)",
-        "whole-row / whole-column ranges of set_style_by_range are driven with exactly two lines (one line panics, "
-        "of three or more only the first two are styled: a defect of the dimension styling, outside the cell store)",
+        "set_style_by_range is driven with cell ranges (A1:B2); the whole-row / whole-column forms (1:3, A:B) are "
+        "rejected by the library's own assertion 'Non-standard range.' before anything is touched",
         "cells carry plain text values and one of three styles; no formulas or hyperlinks (C08/C06)",
         "cell content and the row/column tables are taken over from the observation after each accepted step; "
         "judged are the key set, the coordinates cells report, every query, the row-known clause and the saved refs",
